@@ -391,11 +391,11 @@ theorem concat_equal_layout (x rhs : Container α) (hx : WF x) (hr : WF rhs) (hx
 /-! ### The model stops only on misuse -/
 
 /-- A legal step never trips an assertion: on a pool of well-formed objects the only operations the
-    model stops at are `a += a` and a concatenation whose operands `concat_requires` refuses, and element
-    writes outside the storage. -/
+    model stops at are a concatenation whose operands `concat_requires` refuses, element writes outside
+    the storage, and `augmentWithNoise(covariance(i))` with `i` not a component. -/
 theorem step_assert_only_on_misuse [Zero α] [One α] [Div α] [NatCast α] (p : Pool α) (hp : PoolWF p) (op : Op α)
     (h : step p op = Outcome.assert) :
-    (∃ d s, op = Op.concatAssign d s ∧ (d = s ∨ ∃ x r, p d = some x ∧ p s = some r ∧ concat x r = none)) ∨
+    (∃ d s x r, op = Op.concatAssign d s ∧ p d = some x ∧ p s = some r ∧ concat x r = none) ∨
     (∃ d a b x r, op = Op.concatPlus d a b ∧ p a = some x ∧ p b = some r ∧ concat x r = none) ∨
     (∃ s i j v x, op = Op.writeMean s i j v ∧ p s = some x ∧ ¬ (j < x.mean.rows ∧ i < x.mean.cols)) ∨
     (∃ s i j k v x, op = Op.writeCov s i j k v ∧ p s = some x ∧
@@ -445,11 +445,10 @@ theorem step_assert_only_on_misuse [Zero α] [One α] [Div α] [NatCast α] (p :
     simp only [step] at h
     split at h
     · next x r hx hr =>
-      split_ifs at h with hk hds hpos
-      · exact ⟨dst, src, rfl, Or.inl hds⟩
-      · split at h
-        · cases h
-        · next hc => exact ⟨dst, src, rfl, Or.inr ⟨x, r, hx, hr, hc⟩⟩
+      split_ifs at h with hk
+      split at h
+      · cases h
+      · next hc => exact ⟨dst, src, x, r, rfl, hx, hr, hc⟩
     · cases h
   | concatPlus dst a b =>
     right; left
